@@ -178,7 +178,7 @@ def C09(rep, prog, tier):
     table = wrappers.dispatch(rep, ex, report=False)
     keep = {"SHORTCUT.guard", "SHORTCUT.dominance", "Z.decision", "Z.tests", "Z.layer-assert", "W.subset-test", "W.decision", "W.soft/hard",
             "LEX.cardinality", "LEX.strict-shortcuts", "LEX.soft/hard", "CNF.roles", "CNF.literals", "CNF.constants", "C.query-edges",
-            "Z.start", "W.start", "LEX.start"}
+            "Z.start", "W.start", "LEX.start", "LEX.tie-constraints", "LEX.tie-quantifier", "LEX.balance", "W.balance", "W.ignore", "LEX.ignore"}
     rep.only = keep
     try:
         wrappers.shortcut_guard(rep, ex)
@@ -194,6 +194,7 @@ def C09(rep, prog, tier):
                 be = mcsops.Backend(name, cls, lex=lex)
                 if lex:
                     mcsops.lex_rec(rep, ex, be)
+                    mcsops.lex_ties(rep, ex, be)
                     mcsops.lex_strict_shortcuts(rep, ex, be)
                     mcsops.w_entry(rep, ex, be, strict=True, extended=False, prefix="LEX", n_objects=2)
                 else:
